@@ -197,7 +197,7 @@ def section_and_failure(env, model, **cfg):
         env.eq("C15", "thickness constraint == thickness - radius (<= 0 iff the wall fits)", ni.compute(j)["thickness_intersects"], j["thickness"] - j["radius"])
 
 
-@job("c15.FailureKS", ("C15",), cfgs=product([dict(nx=2, ny=2), dict(nx=2, ny=3)], [dict(symmetry=True, side="left")],
+@job("c15.FailureKS", ("C15", "C20"), cfgs=product([dict(nx=2, ny=2), dict(nx=2, ny=3)], [dict(symmetry=True, side="left")],
                                               [dict(model="tube"), dict(model="wingbox")]), ranges=((r"vonmises", 0.0, 1e12),))
 def failure_ks(env, model, **cfg):
     """KS = fmax + (1/rho) log(sum exp(rho (f_i - fmax))): on every arg-max path the exponent of the maximal entry is 0 and
@@ -222,7 +222,7 @@ def failure_ks(env, model, **cfg):
         f2 = v2 / s["yield"] - 1
         ref2 = f2.max() + math.log(np.exp(rho * (f2 - f2.max())).sum()) / rho
         ok2 = abs(out2 - ref2) <= 1e-9 * (1 + abs(ref2))
-        env.holds("C15", "KS aggregation: every exponent is <= 0 with the maximal entry's exponent 0 (no overflow) and fmax <= KS <= fmax + ln(N)/rho",
+        env.holds("C15,C20", "KS aggregation: every exponent is <= 0 with the maximal entry's exponent 0 (no overflow) and fmax <= KS <= fmax + ln(N)/rho",
                   ok and ok2, "KS = %r, max = %r; clustered stresses: KS = %r, log-sum-exp with the requested rho = %r" % (out, f.max(), out2, ref2))
         return
     env.generic_position(True)
@@ -257,7 +257,7 @@ def failure_ks(env, model, **cfg):
                         want = want + S.transc('exp', S._tofrac(rho) * (f[j] - fmax))
                 if not S.iszero(arg - want):
                     ok, why = False, "log argument is not 1 + sum exp(rho (f_j - fmax))"
-        env.holds("C15", "KS aggregation: every exponent is <= 0 with the maximal entry's exponent 0 (no overflow) and fmax <= KS <= fmax + ln(N)/rho",
+        env.holds("C15,C20", "KS aggregation: every exponent is <= 0 with the maximal entry's exponent 0 (no overflow) and fmax <= KS <= fmax + ln(N)/rho",
                   ok, why)
     env.holds("C15", "KS: one path per possible maximal entry was explored", npaths == N, "%d paths for %d entries" % (npaths, N))
     # the analytic lemma over the abstracted atoms: e_j = exp(u_j) with u_j <= 0 gives 0 < e_j <= 1 (axiom), so
